@@ -3,10 +3,13 @@
 
   `mkBarCh ppqn rel n d key ch` (Model/BarCh.lean) is `Bar(sequence, n, d, key, default_channel)` with
   `ch = chanOf default_channel`; `mkBar` is the instance `ch = 0`, and `Props/ElemTie.lean` (`barInit_eq_ch`,
-  `barCopy_toBar_ch`) proves the constructor and `Bar.copy` as re-translated from bar.py equal to `mkBarCh` / `Bar.copyCh`
-  on the channel the bar remembers.  Here: the C10 facts for every channel — in particular "copying a bar yields an
-  equal bar", which was FALSE of the library for `default_channel ≠ 0` before the repair (D37: the copy's leading
-  time-signature event was on channel 0).
+  `barCopy_toBar_own`) proves the constructor and `Bar.copy` as re-translated from bar.py equal to `mkBarCh` / `Bar.copyOwn`
+  (the copy on the channel of the bar's own, current, signature event).  Here: the C10 facts for every channel — in
+  particular "copying a bar yields an equal bar", which was FALSE of the library for `default_channel ≠ 0` before the
+  repair (D37: the copy's leading time-signature event was on channel 0), and stayed false after the first repair
+  (source commit f9ef398: the copy on the channel given at CONSTRUCTION) for a bar whose messages were moved to another
+  channel afterwards (audit round 4, D1) — `bar_copy_own` is the statement for every bar in bar shape, whatever its past;
+  `unrepaired_copy_differs`, `stored_channel_copy_differs`, `both_earlier_copies_differ` are the negative controls.
 -/
 import SCoda.Lemmas.BarChL
 import SCoda.Props.C10
@@ -91,6 +94,87 @@ theorem bar_copy_ch (ppqn : Int) (rel : List Msg) (n d key ch : Int) (b : Bar)
   · show durRel (barSeqCh ch ppqn (barSeqCh ch ppqn rel n d) n d) = durRel (barSeqCh ch ppqn rel n d)
     unfold durRel
     rw [barSeqCh_dur _ _ _ n d hdur, barSeqCh_dur ch ppqn rel n d h1]
+
+/-- **copying a bar yields an equal bar — for every bar whose CURRENT relative view is in bar shape** (`BarShape`: what the
+    constructor establishes, `mkBarCh_shape`, and what `set_channel` / `transpose` keep as long as notes still pair up,
+    `BarChL.shape_setChannel`, `shape_transposeRel`), whatever happened to the bar since it was built: `Bar.copyOwn` (the
+    copy on the channel of the bar's own signature event, bar.py:57-66) succeeds, and the copy has the same signature, key,
+    timed events — the leading time-signature event, on the channel it is on NOW, among them — and duration, and is in
+    bar shape again.  Closes audit round 4, D1 / C6 (`bar_copy_ch` spoke of freshly constructed bars only). -/
+theorem bar_copy_own (ppqn : Int) (b : Bar) (hs : BarShape ppqn b.seq b.num b.den) :
+    ∃ b' c, b.copyOwn ppqn = .ok b' ∧ b'.num = b.num ∧ b'.den = b.den ∧ b'.key = b.key
+      ∧ eventsRel b'.seq = eventsRel b.seq ∧ durRel b'.seq = durRel b.seq
+      ∧ c ≠ pyNone ∧ sigChan b.seq = c ∧ b.seq.head? = some (Msg.mkTimeSig c b.num b.den pyNone)
+      ∧ b'.seq.head? = some (Msg.mkTimeSig c b.num b.den pyNone) ∧ BarShape ppqn b'.seq b.num b.den := by
+  obtain ⟨c, hc, hsc, hh, hmk, hev, hdur, hsh⟩ := shape_rebuild b.key hs
+  exact ⟨_, c, hmk, rfl, rfl, rfl, hev, hdur, hc, hsc, hh, rfl, hsh⟩
+
+/-- a freshly constructed bar (any `default_channel`) is in bar shape, and its own channel is the constructor's: so
+    `bar_copy_own` contains `bar_copy_ch` -/
+theorem bar_constructed_shape (ppqn : Int) (rel : List Msg) (n d key ch : Int) (b : Bar)
+    (hn : (n, d) ≠ (pyNone, pyNone)) (hc : ch ≠ pyNone) (h : mkBarCh ppqn rel n d key ch = .ok b) :
+    BarShape ppqn b.seq b.num b.den ∧ sigChan b.seq = ch := by
+  obtain ⟨_, _, _, hb⟩ := mkBarCh_ok h
+  have hs := mkBarCh_shape hn hc h
+  subst hb
+  exact ⟨hs, sigChan_cons_ts ch n d pyNone _⟩
+
+/-- the audit's witness (round 4, D1): `Bar(on 60, wait 24, off 60 — channel 3; 4, 4, None, default_channel=3)` and then
+    `bar.sequence.set_channel(c)` -/
+def witnessBar (c : Int) : Bar :=
+  { seq := setChannel c [Msg.mkTimeSig 3 4 4 pyNone, Msg.mkOn 3 60 64 pyNone, Msg.mkWait 3 24, Msg.mkOff 3 60 pyNone, Msg.mkWait 3 72],
+    num := 4, den := 4, key := pyNone }
+
+/-- the witness before `set_channel` is the constructed bar -/
+example : mkBarCh 24 [Msg.mkOn 3 60 64 pyNone, Msg.mkWait 3 24, Msg.mkOff 3 60 pyNone] 4 4 pyNone 3 = .ok (witnessBar 3) := rfl
+
+/-- **the audit's witness, positive**: built on channel 3, moved to channel 0 — the copy (`Bar.copyOwn`) is the bar itself,
+    signature event on channel 0 (kernel-evaluated) -/
+example : (witnessBar 0).copyOwn 24 = .ok (witnessBar 0) ∧
+    (witnessBar 0).seq.head? = some (Msg.mkTimeSig 0 4 4 pyNone) := ⟨rfl, rfl⟩
+
+/-- channel 3 at construction, untouched: the copy is the bar, signature event on channel 3 -/
+example : (witnessBar 3).copyOwn 24 = .ok (witnessBar 3) ∧
+    (witnessBar 3).seq.head? = some (Msg.mkTimeSig 3 4 4 pyNone) := ⟨rfl, rfl⟩
+
+/-- negative control — the copy of source commit f9ef398 (the FIRST repair of D37: `Bar.copy` hands on the
+    `default_channel` stored at construction, here 3) on the audit's witness: the bar's signature event is on channel 0
+    now, the copy's on channel 3, the timed events differ (kernel-checked).  (The unrepaired copy — channel 0 always —
+    happens to agree with this particular bar; `unrepaired_copy_differs` and `both_earlier_copies_differ` are its
+    controls.) -/
+theorem stored_channel_copy_differs :
+    ∃ b', (witnessBar 0).copyCh 24 (chanOf 3) = .ok b' ∧ eventsRel b'.seq ≠ eventsRel (witnessBar 0).seq ∧
+      b'.seq.head? = some (Msg.mkTimeSig 3 4 4 pyNone) ∧ (witnessBar 0).seq.head? = some (Msg.mkTimeSig 0 4 4 pyNone) := by
+  refine ⟨_, rfl, ?_, rfl, rfl⟩
+  decide
+
+/-- negative control for BOTH earlier versions on one bar — built on channel 3, then `set_channel(5)`: the unrepaired copy
+    puts the signature event on channel 0, the copy of f9ef398 on channel 3, the bar has it on channel 5; neither copy has
+    the bar's timed events, `Bar.copyOwn` returns the bar itself (kernel-checked) -/
+theorem both_earlier_copies_differ :
+    ∃ b0 b3, (witnessBar 5).copy 24 = .ok b0 ∧ (witnessBar 5).copyCh 24 (chanOf 3) = .ok b3 ∧
+      eventsRel b0.seq ≠ eventsRel (witnessBar 5).seq ∧ eventsRel b3.seq ≠ eventsRel (witnessBar 5).seq ∧
+      b0.seq.head? = some (Msg.mkTimeSig 0 4 4 pyNone) ∧ b3.seq.head? = some (Msg.mkTimeSig 3 4 4 pyNone) ∧
+      (witnessBar 5).seq.head? = some (Msg.mkTimeSig 5 4 4 pyNone) ∧ (witnessBar 5).copyOwn 24 = .ok (witnessBar 5) := by
+  refine ⟨_, _, rfl, rfl, ?_, ?_, rfl, rfl, rfl, rfl⟩ <;> decide
+
+/-- the hypotheses of `bar_copy_own` hold of the audit's witness (the shape is inherited from the constructed bar through
+    `shape_setChannel`; the one side condition — notes still pair up after the move — is decidable: `WF` via `C07`'s
+    checker would do; here it follows from the copy being the identity) -/
+example : BarShape 24 (witnessBar 3).seq 4 4 :=
+  (bar_constructed_shape 24 [Msg.mkOn 3 60 64 pyNone, Msg.mkWait 3 24, Msg.mkOff 3 60 pyNone] 4 4 pyNone 3 (witnessBar 3)
+    (by decide) (by decide) rfl).1
+
+/-- **the limit of the statement, on the real library too** (replayed, see the report): two channels holding overlapping
+    notes of ONE pitch, then `set_channel(0)` — the bar's relative view no longer pairs its notes per (channel, pitch)
+    (`WF` fails, the hypothesis of `shape_setChannel`), `Bar.__init__` in `copy()` normalises it, and the copy has fewer
+    events than the bar (kernel-checked): "copying a bar yields an equal bar" is false there for every version of `copy`. -/
+theorem merged_channels_copy_differs :
+    ∃ b b', mkBarCh 24 [Msg.mkOn 0 60 64 pyNone, Msg.mkWait 0 12, Msg.mkOn 1 60 64 pyNone, Msg.mkWait 3 24, Msg.mkOff 0 60 pyNone,
+        Msg.mkWait 3 24, Msg.mkOff 1 60 pyNone] 4 4 pyNone 3 = .ok b ∧
+      ({ b with seq := setChannel 0 b.seq } : Bar).copyOwn 24 = .ok b' ∧
+      (eventsRel b'.seq).length = 3 ∧ (eventsRel (setChannel 0 b.seq)).length = 5 := by
+  refine ⟨_, _, rfl, rfl, ?_, ?_⟩ <;> decide
 
 /-- negative control — the UNREPAIRED copy (`Bar.copy`: the constructor's default channel 0, whatever the bar was built
     with) of the recorded D37 bar is not an equal bar: its events differ from the original's (kernel-checked) -/
